@@ -32,6 +32,18 @@ fn theme_doc(rng: &mut Rng) -> String {
             _ => s.push_str(&format!("<text xy=\"{} 20\" class=\"{}\">w{i}</text>", i * 6, cl.join(" "))),
         }
     }
+    if rng.chance(1, 2) {
+        // reuse: the reuse element's attributes are held in a hash map while they are applied to the copy
+        s.push_str("<specs><rect id=\"tpl\" wh=\"4 2\" rx=\"1\"/><g id=\"tg\"><circle r=\"2\"/></g></specs>");
+        for i in 0..1 + rng.below(3) {
+            let mut attrs: Vec<String> = vec![format!("x=\"{}\"", i * 7), "y=\"30\"".to_string()];
+            let pool = ["style=\"fill: red\"", "transform=\"rotate(5)\"", "class=\"u1 u2\"", "rx=\"2\"", "opacity=\"0.5\"", "data-a=\"1\"", "data-b=\"2\"", "stroke-width=\"3\"", "id=\"inst{}\""];
+            for a in pool.iter() { if rng.chance(2, 3) { attrs.push(a.replace("{}", &i.to_string())); } }
+            // shuffle
+            for k in (1..attrs.len()).rev() { let j = rng.below(k + 1); attrs.swap(k, j); }
+            s.push_str(&format!("<reuse href=\"#{}\" {}/>", if rng.chance(1, 2) { "tpl" } else { "tg" }, attrs.join(" ")));
+        }
+    }
     if rng.chance(1, 3) {
         // several elements that fail: the error must also be reproducible
         for k in 0..2 + rng.below(4) { s.push_str(&format!("<rect xy=\"#missing{k}|h\" wh=\"2\"/>")); }
